@@ -52,6 +52,10 @@ func (d decOperand) lit(style int) string {
 		}
 		s = c[:len(c)+d.Exp] + "." + c[len(c)+d.Exp:]
 	}
+	if (style/4)%2 == 1 {
+		// zero-padded: the same decimal number (`007`, `010.50`, `01e3`)
+		s = strings.Repeat("0", 1+style%3) + s
+	}
 	if d.Neg {
 		return "(-" + s + ")"
 	}
@@ -354,7 +358,7 @@ func TestC04Pairs(t *testing.T) {
 		} else {
 			c = arithCase{Ops: []string{rapid.SampledFrom([]string{"+", "-", "*", "/", "%"}).Draw(rt, "op")}, Vals: []decOperand{genOperand(rt, "a"), genOperand(rt, "b")}}
 		}
-		c.Style = rapid.IntRange(0, 3).Draw(rt, "style")
+		c.Style = rapid.IntRange(0, 7).Draw(rt, "style")
 		if _, ok := c.expected(); !ok {
 			run.Class("outside-domain")
 			return
@@ -376,7 +380,7 @@ func TestC04Chains(t *testing.T) {
 	h.RapidSetup(h.N(8000, 2000000), "c04chains")
 	rapid.Check(t, func(rt *rapid.T) {
 		n := rapid.IntRange(2, 4).Draw(rt, "nops")
-		c := arithCase{Style: rapid.IntRange(0, 3).Draw(rt, "style")}
+		c := arithCase{Style: rapid.IntRange(0, 7).Draw(rt, "style")}
 		c.Vals = append(c.Vals, genOperand(rt, "v0"))
 		for i := 0; i < n; i++ {
 			c.Ops = append(c.Ops, rapid.SampledFrom([]string{"+", "-", "*", "/", "%", "+", "*"}).Draw(rt, "op"))
@@ -415,7 +419,7 @@ func TestC04Identities(t *testing.T) {
 				if !h.Mine(idx) || run.NViolations() >= 3 {
 					continue
 				}
-				c := arithCase{Ops: []string{op}, Vals: []decOperand{a, b}, Style: int(idx % 4)}
+				c := arithCase{Ops: []string{op}, Vals: []decOperand{a, b}, Style: int(idx % 8)}
 				if _, ok := c.expected(); !ok {
 					continue
 				}
@@ -652,7 +656,7 @@ func TestC04Exit(t *testing.T) {
 			b := decOperand{Coef: strconv.Itoa(rapid.IntRange(1, 9999999).Draw(rt, "b")), Exp: -rapid.IntRange(0, 4).Draw(rt, "be")}
 			c = arithCase{Ops: []string{rapid.SampledFrom([]string{"+", "-", "*", "/"}).Draw(rt, "op")}, Vals: []decOperand{a, b}}
 		}
-		c.Style = rapid.IntRange(0, 3).Draw(rt, "style")
+		c.Style = rapid.IntRange(0, 7).Draw(rt, "style")
 		want, ok := c.expected()
 		if !ok {
 			run.Class("outside-domain")
